@@ -1,4 +1,91 @@
-import ParanoidModel.Model.Factoring
+/-
+Props/C01.lean — "Every factor reported for an RSA modulus really divides it".
+Property theorems only; helper lemmas live in Proofs/Factoring.lean.
+
+All statements are universally quantified over the modulus `n : Nat` (no size bound), over
+every constructor parameter (step bound, middle bits, CF bound, Pollard product `m` and gcd
+bound, LHW cutoff / maxsteps) and over EVERY answer of the oracles (`basis` returned by LLL,
+`cbrt` returned by the float cube root): soundness needs no assumption on them.
+-/
+import ParanoidModel.Proofs.Factoring
 namespace Paranoid.C01
-theorem placeholder : True := trivial
+open Paranoid
+
+/-- A reported factor list is *verified* for `n`: exactly two values, their product is `n`
+(hence each divides `n`). -/
+def Verified (n : Nat) (fs : List Nat) : Prop := ∃ x y, fs = [x, y] ∧ x * y = n
+
+theorem Verified.all_dvd {n fs} (h : Verified n fs) : ∀ f ∈ fs, f ∣ n := by
+  obtain ⟨x, y, rfl, rfl⟩ := h
+  intro f hf
+  simp only [List.mem_cons, List.not_mem_nil, or_false] at hf
+  rcases hf with rfl | rfl
+  · exact Dvd.intro _ rfl
+  · exact Dvd.intro_left _ rfl
+
+/-- FermatFactor: the returned pair multiplies to `n` — for every `n` (even, square, prime,
+composite) and every step bound. -/
+theorem fermat_sound (n steps p q : Nat) (h : fermatFactor n steps = some (p, q)) :
+    p * q = n := fermatFactor_sound n steps p q h
+
+/-- FactorHighAndLowBitsEqual: a returned list is a verified factorisation. -/
+theorem hlbe_sound (n middleBits : Nat) (fs : List Nat)
+    (h : factorHighAndLowBitsEqual n middleBits = .ok (some fs)) : Verified n fs :=
+  Paranoid.hlbe_sound n middleBits fs h
+
+/-- CheckContinuedFraction: a non-empty factor list is `[g, n/g]` with `g ∣ n`, `1 < g < n`,
+and then the key is reported weak (`ok = false`). -/
+theorem cf_sound (n bound : Nat) (ok : Bool) (fs : List Nat)
+    (h : checkContinuedFraction n bound = .ok (ok, fs)) :
+    fs = [] ∨ (ok = false ∧ ProperSplit n fs) :=
+  cfCheckLoop_sound _ _ _ _ _ _ h
+
+/-- CheckFraction, for EVERY basis the lattice reduction may return. -/
+theorem fraction_sound (n : Nat) (basis : List (List Int)) (fs : List Nat)
+    (h : checkFraction n basis = .ok fs) : fs = [] ∨ ProperSplit n fs :=
+  checkFractionLoop_sound _ _ _ _ h
+
+/-- FactorWithGuess, for every guess and EVERY value of the float cube root. -/
+theorem fwg_sound (n p0 cbrt : Nat) (fs : List Nat)
+    (h : factorWithGuess n p0 cbrt = .ok (some fs)) : ProperSplit n fs :=
+  factorWithGuess_sound n p0 cbrt fs h
+
+/-- CheckSmallUpperDifferences. -/
+theorem sud_sound (n cbrt : Nat) (fs : List Nat)
+    (h : checkSmallUpperDifferences n cbrt = .ok (some fs)) : ProperSplit n fs := by
+  unfold checkSmallUpperDifferences at h
+  dsimp only at h
+  split at h
+  · simp at h
+  · exact sudLoop_sound _ _ _ _ h
+
+/-- Pollardpm1, for every `m` and gcd bound: factors only together with `weak = true`. -/
+theorem pm1_sound (n m gcdBound : Nat) (w : Bool) (fs : List Nat)
+    (h : pollardPm1 n m gcdBound = (w, fs)) : fs = [] ∨ (w = true ∧ ProperSplit n fs) :=
+  pollardPm1_sound n m gcdBound w fs h
+
+/-- CheckLowHammingWeight: a reported pair multiplies to `n`, whatever the heap order,
+cutoff and step budget. -/
+theorem lhw_sound (n cutoff maxsteps : Nat) (w : Bool) (fs : List Nat)
+    (h : checkLowHammingWeight n cutoff maxsteps = (w, fs)) :
+    fs = [] ∨ (w = true ∧ Verified n fs) := by
+  unfold checkLowHammingWeight at h
+  simp only at h
+  split at h
+  · rename_i p0 q0 hm
+    simp only [Prod.mk.injEq] at h
+    obtain ⟨rfl, rfl⟩ := h
+    exact Or.inr ⟨rfl, p0, q0, rfl, lhwMain_sound _ _ _ _ _ _ _ _ hm⟩
+  · simp only [Prod.mk.injEq] at h
+    exact Or.inl h.2.symm
+
+/-- every element of a `ProperSplit` is a proper divisor. -/
+theorem properSplit_proper (n : Nat) (fs : List Nat) (h : ProperSplit n fs) :
+    (∀ f ∈ fs, f ∣ n) ∧ (∀ f ∈ fs, 1 < f ∧ f < n) ∧ Verified n fs :=
+  ⟨h.all_dvd, h.proper, h.prod⟩
+
+/-! Non-vacuity: the hypotheses are met by concrete non-trivial inputs. -/
+example : fermatFactor 8633 10 = some (97, 89) := by decide +kernel
+example : (pollardPm1 (1009 * 2003) 5040 1).2 ≠ [] := by decide +kernel
+
 end Paranoid.C01
